@@ -23,7 +23,7 @@ pub fn def() -> PropDef {
 }
 
 pub fn scenario(max_ops: usize) -> impl Strategy<Value = Scenario> {
-	(prop_oneof![3 => Just(0u8), 3 => Just(1u8), 2 => Just(2u8)], 0u8..3).prop_flat_map(move |(which, compression)| {
+	(prop_oneof![3 => Just(0u8), 3 => Just(1u8), 2 => Just(2u8)], 0u8..3, 0u8..4).prop_flat_map(move |(which, compression, bits)| {
 		let mut cols = Vec::new();
 		if which == 0 || which == 2 {
 			let mut c = ColCfg::hash_rc();
@@ -35,7 +35,7 @@ pub fn scenario(max_ops: usize) -> impl Strategy<Value = Scenario> {
 			c.compression = compression;
 			cols.push(c);
 		}
-		let cfg = DbCfg::new(cols);
+		let cfg = DbCfg::new(cols).flags(bits);
 		let n = cfg.cols.len() as u8;
 		let items = proptest::collection::vec((0..n, rc_change(20)).prop_map(|(col, ch)| Item { col, ch }), 1..=8);
 		// large transactions over few keys (the operations of one key must keep their order
